@@ -335,9 +335,10 @@ func (g *TemplateGenerator) getTemplate(ctx context.Context) (string, *gojsonsch
 			continue
 		}
 		var remoteTemplate *RemoteTemplate
-		if cachedRemoteTemplate, ok := g.remoteTemplateCache[g.templateName]; !ok {
+		cacheKey := g.templateName + "\n" + g.templateSchema
+		if cachedRemoteTemplate, ok := g.remoteTemplateCache[cacheKey]; !ok {
 			remoteTemplate = NewRemoteTemplate(g.templateName, g.templateSchema)
-			g.remoteTemplateCache[g.templateName] = remoteTemplate
+			g.remoteTemplateCache[cacheKey] = remoteTemplate
 		} else {
 			remoteTemplate = cachedRemoteTemplate
 		}
